@@ -40,7 +40,7 @@ Section Run.
     end.
 
   Definition scan_case : list lexeme * scan_end * list conf :=
-    lex_traj (4 * List.length data + 64) (init_conf ScannerProg.initial_state).
+    lex_traj (8 * List.length data + 64) (init_conf ScannerProg.initial_state).
 End Run.
 
 Definition state_name (st : state) : string :=
